@@ -312,6 +312,10 @@ func (c18) build(c *mon.Ctx, workload string, i int64) c18Case {
 	g.MaxDepth = 2 + c.R.Intn(2)
 	g.Containers = c.R.Intn(2) == 0
 	stmts := g.Program()
+	if wr := c.Sub("wrap"); wr.Intn(6) == 0 {
+		// one program in six runs 1..9 blocks deeper
+		stmts = wrapDeep(stmts, 1+wr.Intn(9))
+	}
 	multi := false
 	gt.WalkStmts(stmts, func(t *gt.T) {
 		if t.K == gt.KAssign && len(t.LHS) > 1 {
